@@ -180,7 +180,7 @@ theorem same_trans {a b c : St} (h1 : Same a b) (h2 : Same b c) : Same a c :=
 
 theorem same_emit (s : St) (o : Obs) : Same s (emit s o) := ⟨rfl, rfl, rfl⟩
 
-theorem same_write (s : St) (b : Bytes) : Same s (write s b).1 := by
+theorem same_write (s : St) (b : Bytes) (w : WKind) : Same s (write s b w).1 := by
   unfold write; cases s.werr <;> exact ⟨rfl, rfl, rfl⟩
 
 theorem same_foldl_emit (q : List Req) (s : St) :
@@ -293,7 +293,7 @@ theorem quiet_emit (s : St) (o : Obs) (ho : o.silent = true) : Quiet s (emit s o
   | event n => simp [Obs.silent] at ho
   | _ => simp [responses, eventsOf]
 
-theorem quiet_write (s : St) (b : Bytes) : Quiet s (write s b).1 := by
+theorem quiet_write (s : St) (b : Bytes) (w : WKind) : Quiet s (write s b w).1 := by
   unfold write; cases s.werr
   · exact quiet_emit s _ rfl
   · exact quiet_refl s
@@ -378,11 +378,129 @@ theorem idleResponse_log (s : St) (r : Response) :
       unfold write
       cases (emitEvents s f).werr with
       | none =>
-        have := quiet_emit (emitEvents s f) (.wrote IDLE) rfl
+        have := quiet_emit (emitEvents s f) (.wrote IDLE .idle) rfl
         exact ⟨this.1.trans e1, this.2.trans e2⟩
       | some k =>
         have := quiet_trans (quiet_emit (emitEvents s f) (.closing (some (.io k))) rfl) (quiet_exitLoop _)
         exact ⟨this.1.trans e1, this.2.trans e2⟩
+
+/-! ## write discipline: which reply-producing lines were written, and who waits for the replies -/
+
+/-- who consumes a response -/
+inductive Consumer where
+  | verdict            -- `do_connect`: the reply to `password`
+  | idle               -- the idle loop: the reply to `idle` (possibly provoked by `noidle`)
+  | reply (id : Nat)   -- the caller of request `id`
+deriving Repr, DecidableEq
+
+/-- the consumer of the reply a written line provokes (`noidle` provokes none of its own) -/
+def WKind.consumer : WKind → Option Consumer
+  | .password => some .verdict
+  | .idle => some .idle
+  | .request id => some (.reply id)
+  | .noidle => none
+
+/-- the reply-producing lines written so far, as the consumers of their replies, in order -/
+def replyWrites (obs : List Obs) : List Consumer :=
+  obs.filterMap fun o => match o with | .wrote _ k => k.consumer | _ => none
+
+@[simp] theorem replyWrites_append (a b : List Obs) : replyWrites (a ++ b) = replyWrites a ++ replyWrites b := by
+  simp [replyWrites, List.filterMap_append]
+
+/-- the reply the task is waiting for at this program point -/
+def outstanding : Pc → List Consumer
+  | .pwWait _ => [.verdict]
+  | .idling _ => [.idle]
+  | .cancelWait _ _ => [.idle]
+  | .waiting r _ => [.reply r.id]
+  | _ => []
+
+def Terminal (s : St) : Prop := s.pc = .exited ∨ s.pc = .failed
+
+theorem terminal_exitLoop (s : St) : Terminal (exitLoop s) := Or.inl (exitLoop_spec s).1
+
+/-- a step that consumes nothing: what it writes (Δ) is what it now additionally waits for -/
+def WSilent (s s' : St) : Prop :=
+  Terminal s' ∨ ∃ Δ, replyWrites s'.obs = replyWrites s.obs ++ Δ ∧ outstanding s'.pc = outstanding s.pc ++ Δ
+
+/-- a step that consumes a response: it was waiting for exactly one reply, and what it writes
+afterwards is exactly what it waits for next -/
+def WConsumed (s s' : St) : Prop :=
+  (∃ c, outstanding s.pc = [c]) ∧ (Terminal s' ∨ replyWrites s'.obs = replyWrites s.obs ++ outstanding s'.pc)
+
+theorem rw_emit_other (s : St) (o : Obs) (ho : ∀ b k, o ≠ .wrote b k) : replyWrites (emit s o).obs = replyWrites s.obs := by
+  cases o <;> simp_all [replyWrites, emit]
+
+theorem rw_foldl_emit (q : List Req) (s : St) :
+    replyWrites (q.foldl (fun s r => emit s (.resolved r.id .closed)) s).obs = replyWrites s.obs := by
+  induction q generalizing s with
+  | nil => rfl
+  | cons r rest ih => rw [List.foldl_cons, ih]; simp [replyWrites, emit]
+
+theorem rw_emitEvents (s : St) (f : AFrame) : replyWrites (emitEvents s f).obs = replyWrites s.obs := by
+  rw [(emitEvents_obs s f).1]
+  have : ∀ l : List Bytes, replyWrites (l.map Obs.event) = [] := by
+    intro l; induction l <;> simp_all [replyWrites]
+  simp [this]
+
+theorem write_cases' (s : St) (b : Bytes) (w : WKind) :
+    write s b w = (emit s (.wrote b w), none) ∨ ∃ k, write s b w = (s, some k) := by
+  unfold write
+  cases s.werr with
+  | none => left; rfl
+  | some k => right; exact ⟨k, rfl⟩
+
+/-- sub-routines that start with nothing outstanding: what they write is what they wait for -/
+theorem w_afterReply (s : St) (d : Nat) :
+    Terminal (afterReply s d) ∨ replyWrites (afterReply s d).obs = replyWrites s.obs ++ outstanding (afterReply s d).pc := by
+  unfold afterReply
+  cases s.queue with
+  | nil =>
+    simp only
+    by_cases hs : s.senders = 0
+    · simp only [hs, if_true]; exact Or.inl (terminal_exitLoop s)
+    · simp only [hs, if_false]
+      by_cases hd : s.now ≥ d
+      · simp only [hd, if_true]
+        rcases write_cases' s IDLE .idle with h | ⟨k, h⟩ <;> rw [h] <;> simp only
+        · right; simp [replyWrites, emit, outstanding, WKind.consumer]
+        · exact Or.inl (terminal_exitLoop _)
+      · simp only [hd, if_false]; right; simp [outstanding]
+  | cons r q =>
+    simp only
+    rcases write_cases' { s with queue := q } r.bytes (.request r.id) with h | ⟨k, h⟩ <;> rw [h] <;> simp only
+    · right; simp [replyWrites, emit, outstanding, WKind.consumer]
+    · exact Or.inl (terminal_exitLoop _)
+
+theorem w_idleResponse (s : St) (r : Response) :
+    Terminal (idleResponse s r) ∨
+      replyWrites (idleResponse s r).obs = replyWrites s.obs ++ outstanding (idleResponse s r).pc := by
+  unfold idleResponse
+  cases intoSingleFrame r with
+  | none => exact Or.inl (terminal_exitLoop s)
+  | some x =>
+    cases x with
+    | error e => exact Or.inl (terminal_exitLoop _)
+    | ok f =>
+      simp only
+      rcases write_cases' (emitEvents s f) IDLE .idle with h | ⟨k, h⟩ <;> rw [h] <;> simp only
+      · right
+        have := rw_emitEvents s f
+        simp only [emit, replyWrites_append, outstanding]
+        rw [this]; simp [replyWrites, WKind.consumer]
+      · exact Or.inl (terminal_exitLoop _)
+
+theorem w_startCancel (s : St) :
+    Terminal (startCancel s) ∨
+      (replyWrites (startCancel s).obs = replyWrites s.obs ∧ outstanding (startCancel s).pc = [.idle]) := by
+  unfold startCancel
+  cases s.queue with
+  | nil => exact Or.inl (terminal_exitLoop s)
+  | cons r q =>
+    simp only
+    rcases write_cases' { s with queue := q } NOIDLE .noidle with h | ⟨k, h⟩ <;> rw [h] <;> simp only
+    · right; simp [replyWrites, emit, outstanding, WKind.consumer]
+    · exact Or.inl (terminal_exitLoop _)
 
 /-! ## the theorem -/
 
@@ -396,14 +514,14 @@ def Delivery (s s' : St) (r : Response) : Prop :=
 
 /-- what one step of the task does to the decoding the connection is committed to -/
 inductive Effect (s s' : St) : Prop
-  | silent (h : ∀ q, future s' q = future s q) (hq : Quiet s s')
+  | silent (h : ∀ q, future s' q = future s q) (hq : Quiet s s') (hw : WSilent s s')
   | consumed (r : Response) (h : ∀ q, future s q = (.initial, (resid s').2 ++ q, .done r))
-      (hσ : (resid s').1 = .initial) (hd : Delivery s s' r)
+      (hσ : (resid s').1 = .initial) (hd : Delivery s s' r) (hw : WConsumed s s')
   | broken (it : Item) (hit : it.isResp = false)
       (hp : (pollRecv { s with fresh := false } (σcur s)).2 = .ready it) (hq : Quiet s s')
 
-theorem silent_of_resid {s s' : St} (h : resid s' = resid s) (hq : Quiet s s') : Effect s s' :=
-  .silent (by intro q; unfold future; rw [h]) hq
+theorem silent_of_resid {s s' : St} (h : resid s' = resid s) (hq : Quiet s s') (hw : WSilent s s') : Effect s s' :=
+  .silent (by intro q; unfold future; rw [h]) hq hw
 
 /-- a poll that stays pending, whatever happens to the future afterwards (kept or dropped) -/
 theorem pollRecv_quiet (s s1 : St) (σ : BState) (rp : RecvPoll)
@@ -417,8 +535,8 @@ theorem quiet_of_obs {s s1 s' : St} (h1 : s1.obs = s.obs) (h : Quiet s1 s') : Qu
 
 theorem effect_pending (s s1 s' : St) (σ σ' : BState) (hσ : σcur s = σ)
     (hp : pollRecv { s with fresh := false } σ = (s1, .pending σ'))
-    (hr : resid s' = (σ', s1.buf ++ s1.avail)) (hq : Quiet s1 s') : Effect s s' := by
-  refine .silent (fun q => ?_) (quiet_of_obs (pollRecv_quiet s s1 σ _ hp) hq)
+    (hr : resid s' = (σ', s1.buf ++ s1.avail)) (hq : Quiet s1 s') (hw : WSilent s s') : Effect s s' := by
+  refine .silent (fun q => ?_) (quiet_of_obs (pollRecv_quiet s s1 σ _ hp) hq) hw
   have := (pollRecv_stream { s with fresh := false } σ).1 σ' (by rw [hp]) q
   rw [hp] at this
   unfold future
@@ -428,11 +546,11 @@ theorem effect_pending (s s1 s' : St) (σ σ' : BState) (hσ : σcur s = σ)
 
 theorem effect_resp (s s1 s' : St) (σ : BState) (r : Response) (hσ : σcur s = σ)
     (hp : pollRecv { s with fresh := false } σ = (s1, .ready (.resp r)))
-    (hr : resid s' = (s1.bstash, s1.buf ++ s1.avail)) (hd : Delivery s s' r) : Effect s s' := by
+    (hr : resid s' = (s1.bstash, s1.buf ++ s1.avail)) (hd : Delivery s s' r) (hw : WConsumed s s') : Effect s s' := by
   have := (pollRecv_stream { s with fresh := false } σ).2 r (by rw [hp])
   rw [hp] at this
   obtain ⟨h0, hq⟩ := this
-  refine .consumed r (fun q => ?_) (by rw [hr]; exact h0) hd
+  refine .consumed r (fun q => ?_) (by rw [hr]; exact h0) hd hw
   unfold future
   rw [hr]
   simp only [resid, hσ]
@@ -457,8 +575,13 @@ macro "quiet_tac" : tactic => `(tactic| first
   | exact quiet_trans (quiet_emit _ _ rfl) (quiet_emit _ _ rfl)
   | exact quiet_trans (quiet_trans (quiet_emit _ _ rfl) (quiet_emit _ _ rfl)) (quiet_exitLoop _))
 
+/-- `WSilent` for a poll that stays pending with the same kind of program point -/
+theorem wsilent_same {s s' : St} (ho : s'.obs = s.obs) (hp : outstanding s'.pc = outstanding s.pc) : WSilent s s' :=
+  Or.inr ⟨[], by simp [ho], by simp [hp]⟩
+
 /-- **the run loop is cancel-safe**: every step after the greeting is silent, consumes exactly the
-next response of the stream and hands it to the right consumer, or ends a poll with a non-response -/
+next response of the stream and hands it to the right consumer, or ends a poll with a non-response;
+and what it writes is exactly what it then waits for -/
 theorem step_effect (s s' : St) (rf : Bool) (hc : s.pc ≠ .connecting) (h : step s rf = some s') : Effect s s' := by
   unfold step at h
   obtain ⟨t, ht⟩ : ∃ t : St, t = { s with fresh := false } := ⟨_, rfl⟩
@@ -470,14 +593,11 @@ theorem step_effect (s s' : St) (rf : Bool) (hc : s.pc ≠ .connecting) (h : ste
   | spawned =>
     rw [hpc] at h
     have hσ : σcur s = s.bstash := by simp [σcur, hpc]
-    unfold write at h
-    cases hw : s.werr with
-    | none =>
-      simp only [hw, Option.some.injEq] at h; subst h
-      exact silent_of_resid (by simp [resid, σcur, hpc, emit]) (by quiet_tac)
-    | some k =>
-      simp only [hw, Option.some.injEq] at h; subst h
-      refine silent_of_resid ?_ (by quiet_tac)
+    rcases write_cases' s IDLE .idle with hw | ⟨k, hw⟩ <;> rw [hw] at h <;>
+      simp only [Option.some.injEq] at h <;> subst h
+    · refine silent_of_resid (by simp [resid, σcur, hpc, emit]) (by quiet_tac) ?_
+      exact Or.inr ⟨[.idle], by simp [replyWrites, emit, WKind.consumer], by simp [outstanding, hpc]⟩
+    · refine silent_of_resid ?_ (by quiet_tac) (Or.inl (terminal_exitLoop _))
       rw [resid_sub ⟨same_exitLoop _, exitLoop_fresh _⟩]
       simp [resid, hσ, emit]
   | waitNext d =>
@@ -486,9 +606,12 @@ theorem step_effect (s s' : St) (rf : Bool) (hc : s.pc ≠ .connecting) (h : ste
     simp only at h
     split at h
     · simp only [Option.some.injEq] at h; subst h
-      refine silent_of_resid ?_ (by quiet_tac)
-      rw [resid_sub (afterReply_same_fresh s d)]
-      simp [resid, hσ]
+      refine silent_of_resid ?_ (by quiet_tac) ?_
+      · rw [resid_sub (afterReply_same_fresh s d)]
+        simp [resid, hσ]
+      · rcases w_afterReply s d with hw | hw
+        · exact Or.inl hw
+        · exact Or.inr ⟨_, hw, by simp [outstanding, hpc]⟩
     · simp at h
   | pwWait σ =>
     rw [hpc] at h
@@ -504,6 +627,7 @@ theorem step_effect (s s' : St) (rf : Bool) (hc : s.pc ≠ .connecting) (h : ste
       | pending σ' =>
         simp only [Option.some.injEq] at h; subst h
         exact effect_pending s s1 _ σ σ' hσ hp (by simp [resid, σcur]) (by quiet_tac)
+          (wsilent_same ho (by simp [outstanding, hpc]))
       | ready it =>
         cases it with
         | resp r =>
@@ -511,8 +635,10 @@ theorem step_effect (s s' : St) (rf : Bool) (hc : s.pc ≠ .connecting) (h : ste
           split at h <;> (simp only [Option.some.injEq] at h; subst h)
           · exact effect_resp s s1 _ σ r hσ hp (by simp [resid, σcur, emit])
               (by simp only [Delivery, hpc]; exact quiet_of_obs ho (by quiet_tac))
+              ⟨⟨.verdict, by simp [outstanding, hpc]⟩, Or.inl (Or.inr rfl)⟩
           · exact effect_resp s s1 _ σ r hσ hp (by simp [resid, σcur, emit])
               (by simp only [Delivery, hpc]; exact quiet_of_obs ho (by quiet_tac))
+              ⟨⟨.verdict, by simp [outstanding, hpc]⟩, Or.inr (by simp [emit, replyWrites, ho, outstanding])⟩
         | clean =>
           simp only [Option.some.injEq] at h; subst h
           exact effect_broken s s1 _ σ _ hσ rfl hp (by quiet_tac)
@@ -542,17 +668,23 @@ theorem step_effect (s s' : St) (rf : Bool) (hc : s.pc ≠ .connecting) (h : ste
       | pending σ' =>
         simp only [Option.some.injEq] at h; subst h
         exact effect_pending s s1 _ σ σ' hσ hp (by simp [resid, σcur]) (by quiet_tac)
+          (wsilent_same ho (by simp [outstanding, hpc]))
       | ready it =>
         cases it with
         | resp resp =>
           simp only [Option.some.injEq] at h; subst h
-          refine effect_resp s s1 _ σ resp hσ hp ?_ ?_
+          refine effect_resp s s1 _ σ resp hσ hp ?_ ?_ ?_
           · rw [resid_sub (afterReply_same_fresh _ _)]
             simp [emit]
           · simp only [Delivery, hpc]
             have hq := quiet_afterReply (emit s1 (.resolved r.id (.response resp))) (s1.now + TIMEOUT_MS)
             rw [hq.1, hq.2, ← ho]
             simp [emit, responses, eventsOf]
+          · refine ⟨⟨.reply r.id, by simp [outstanding, hpc]⟩, ?_⟩
+            rcases w_afterReply (emit s1 (.resolved r.id (.response resp))) (s1.now + TIMEOUT_MS) with hw | hw
+            · exact Or.inl hw
+            · right
+              rw [hw, ← ho]; simp [emit, replyWrites]
         | clean =>
           simp only [Option.some.injEq] at h; subst h
           exact effect_broken s s1 _ σ _ hσ rfl hp (by quiet_tac)
@@ -582,6 +714,7 @@ theorem step_effect (s s' : St) (rf : Bool) (hc : s.pc ≠ .connecting) (h : ste
       | pending σ' =>
         simp only [Option.some.injEq] at h; subst h
         exact effect_pending s s1 _ σ σ' hσ hp (by simp [resid, σcur]) (by quiet_tac)
+          (wsilent_same ho (by simp [outstanding, hpc]))
       | ready it =>
         cases it with
         | resp resp =>
@@ -590,7 +723,7 @@ theorem step_effect (s s' : St) (rf : Bool) (hc : s.pc ≠ .connecting) (h : ste
           | none =>
             rw [hsf] at h
             simp only [Option.some.injEq] at h; subst h
-            refine effect_resp s s1 _ σ resp hσ hp ?_ ?_
+            refine effect_resp s s1 _ σ resp hσ hp ?_ ?_ ⟨⟨.idle, by simp [outstanding, hpc]⟩, Or.inl (terminal_exitLoop _)⟩
             · rw [resid_sub ⟨same_exitLoop _, exitLoop_fresh _⟩]; simp [emit]
             · simp only [Delivery, hpc, eventsOfReply, hsf, List.append_nil]
               exact quiet_of_obs ho (by quiet_tac)
@@ -599,7 +732,7 @@ theorem step_effect (s s' : St) (rf : Bool) (hc : s.pc ≠ .connecting) (h : ste
             cases ef with
             | error e =>
               simp only [Option.some.injEq] at h; subst h
-              refine effect_resp s s1 _ σ resp hσ hp ?_ ?_
+              refine effect_resp s s1 _ σ resp hσ hp ?_ ?_ ⟨⟨.idle, by simp [outstanding, hpc]⟩, Or.inl (terminal_exitLoop _)⟩
               · rw [resid_sub ⟨same_exitLoop _, exitLoop_fresh _⟩]; simp [emit]
               · simp only [Delivery, hpc, eventsOfReply, hsf, List.append_nil]
                 exact quiet_of_obs ho (by quiet_tac)
@@ -607,18 +740,18 @@ theorem step_effect (s s' : St) (rf : Bool) (hc : s.pc ≠ .connecting) (h : ste
               simp only at h
               have hs := same_emitEvents s1 f
               obtain ⟨e1, e2⟩ := emitEvents_log s1 f
-              unfold write at h
-              cases hw : (emitEvents s1 f).werr with
-              | none =>
-                simp only [hw, Option.some.injEq] at h; subst h
-                refine effect_resp s s1 _ σ resp hσ hp ?_ ?_
+              rcases write_cases' (emitEvents s1 f) r.bytes (.request r.id) with hw | ⟨k, hw⟩ <;> rw [hw] at h <;>
+                simp only [Option.some.injEq] at h <;> subst h
+              · refine effect_resp s s1 _ σ resp hσ hp ?_ ?_ ?_
                 · simp [resid, σcur, emit, hs.1, hs.2.1, hs.2.2]
                 · simp only [Delivery, hpc, eventsOfReply, hsf]
-                  have hq := quiet_emit (emitEvents s1 f) (.wrote r.bytes) rfl
+                  have hq := quiet_emit (emitEvents s1 f) (.wrote r.bytes (.request r.id)) rfl
                   exact ⟨by rw [← ho, ← e1]; exact hq.1, by rw [← ho, ← e2]; exact hq.2⟩
-              | some k =>
-                simp only [hw, Option.some.injEq] at h; subst h
-                refine effect_resp s s1 _ σ resp hσ hp ?_ ?_
+                · refine ⟨⟨.idle, by simp [outstanding, hpc]⟩, Or.inr ?_⟩
+                  have := rw_emitEvents s1 f
+                  simp only [emit, replyWrites_append, outstanding]
+                  rw [this, ho]; simp [replyWrites, WKind.consumer]
+              · refine effect_resp s s1 _ σ resp hσ hp ?_ ?_ ⟨⟨.idle, by simp [outstanding, hpc]⟩, Or.inl (terminal_exitLoop _)⟩
                 · rw [resid_sub ⟨same_exitLoop _, exitLoop_fresh _⟩]; simp [emit, hs.1, hs.2.1, hs.2.2]
                 · simp only [Delivery, hpc, eventsOfReply, hsf]
                   have hq := quiet_trans (quiet_emit (emitEvents s1 f) (.resolved r.id (.protocol (.io k))) rfl) (quiet_exitLoop _)
@@ -645,9 +778,12 @@ theorem step_effect (s s' : St) (rf : Bool) (hc : s.pc ≠ .connecting) (h : ste
     split at h
     · -- the command branch wins: the live future is dropped as it is
       simp only [Option.some.injEq] at h; subst h
-      refine silent_of_resid ?_ (quiet_startCancel (dropFuture s σ))
-      rw [resid_sub (startCancel_same_fresh _)]
-      simp [resid, hσ, dropFuture]
+      refine silent_of_resid ?_ (quiet_startCancel (dropFuture s σ)) ?_
+      · rw [resid_sub (startCancel_same_fresh _)]
+        simp [resid, hσ, dropFuture]
+      · rcases w_startCancel (dropFuture s σ) with hw | ⟨hw1, hw2⟩
+        · exact Or.inl hw
+        · exact Or.inr ⟨[], by rw [hw1]; simp [dropFuture], by rw [hw2, hpc]; rfl⟩
     · split at h
       · rcases hp : pollRecv t σ with ⟨s1, rp⟩
         rw [hp] at h
@@ -659,21 +795,29 @@ theorem step_effect (s s' : St) (rf : Bool) (hc : s.pc ≠ .connecting) (h : ste
           split at h
           · -- dropped right after consuming bytes
             simp only [Option.some.injEq] at h; subst h
-            refine effect_pending s s1 _ σ σ' hσ hp ?_ (quiet_startCancel (dropFuture s1 σ'))
-            rw [resid_sub (startCancel_same_fresh _)]
-            simp [dropFuture]
+            refine effect_pending s s1 _ σ σ' hσ hp ?_ (quiet_startCancel (dropFuture s1 σ')) ?_
+            · rw [resid_sub (startCancel_same_fresh _)]
+              simp [dropFuture]
+            · rcases w_startCancel (dropFuture s1 σ') with hw | ⟨hw1, hw2⟩
+              · exact Or.inl hw
+              · exact Or.inr ⟨[], by rw [hw1]; simp [dropFuture, ho], by rw [hw2, hpc]; rfl⟩
           · simp only [Option.some.injEq] at h; subst h
             exact effect_pending s s1 _ σ σ' hσ hp (by simp [resid, σcur]) (by quiet_tac)
+              (wsilent_same ho (by simp [outstanding, hpc]))
         | ready it =>
           cases it with
           | resp resp =>
             simp only [Option.some.injEq] at h; subst h
-            refine effect_resp s s1 _ σ resp hσ hp ?_ ?_
+            refine effect_resp s s1 _ σ resp hσ hp ?_ ?_ ?_
             · rw [resid_sub (idleResponse_same_fresh _ _)]
             · simp only [Delivery, hpc]
               have := idleResponse_log s1 resp
               rw [ho] at this
               exact this
+            · refine ⟨⟨.idle, by simp [outstanding, hpc]⟩, ?_⟩
+              rcases w_idleResponse s1 resp with hw | hw
+              · exact Or.inl hw
+              · exact Or.inr (by rw [hw, ho])
           | clean =>
             simp only [Option.some.injEq] at h; subst h
             exact effect_broken s s1 _ σ _ hσ rfl hp (by quiet_tac)
